@@ -18,6 +18,13 @@ package env
 //@   at call transform.NewTransformer:
 //@     assert C14_alias_mangler_is_first: len(arg1) >= 1 && isType(cell(selem(arg1, 0), "Iface"), "*transform.AliasMangler")
 //@     assert C11_string_cast_is_last: lastManglerIsStringCast(arg1)
+//@     assert C11_names_are_flattened_then_upper_snake_cased_then_copied_to_dialsenv: len(arg1) == 5
+//@          && isType(cell(selem(arg1, 1), "Iface"), "*transform.FlattenMangler")
+//@          && isType(cell(selem(arg1, 2), "Iface"), "*tagformat.TagReformattingMangler")
+//@          && as(pay(cell(selem(arg1, 2), "Iface")), "*tagformat.TagReformattingMangler").tag == "dials"
+//@          && isType(cell(selem(arg1, 3), "Iface"), "*tagformat.TagCopyingMangler")
+//@          && as(pay(cell(selem(arg1, 3), "Iface")), "*tagformat.TagCopyingMangler").SrcTag == "dials"
+//@          && as(pay(cell(selem(arg1, 3), "Iface")), "*tagformat.TagCopyingMangler").NewTag == "dialsenv"
 //@     assert C11_transformer_for_the_requested_type: arg0 == as(t, "*dials.Type").t
 //@   at call fmt.Errorf("empty:
 //@     assume rely_mangler_chain_populates_the_dialsenv_tag: false
